@@ -34,6 +34,18 @@ def value_pool() -> Dict[str, Any]:
         "v7": np.array([[1.5, 2.5], [3.5, 4.5]]),
         "v8": b"bytes\xff",
         "v9": np.void(b"\x7f\x7f"),  # marker-like but not the marker
+        # a wider range of HDF5 types (only used by drivers that ask for them)
+        "v10": np.float32(1.5),
+        "v11": np.array([b"ab", b"cde"], dtype="S5"),
+        "v12": np.array([], dtype="int64"),
+        "v13": np.complex128(1 + 2j),
+        "v14": h5py.Empty("f"),
+        "v15": np.array([(1, 2.0)], dtype=[("a", "i4"), ("b", "f8")]),
+        "v16": np.array(["a", "bcd"], dtype=h5py.string_dtype()),
+        "v17": np.uint64(2 ** 64 - 1),
+        "v18": "",
+        "v19": np.zeros((0, 3)),
+        "v20": np.int8(-3),
     }
 
 
@@ -51,6 +63,8 @@ def canon(x) -> str:
         return "bytes:" + x.hex()
     if isinstance(x, str):
         return "str:" + x
+    if isinstance(x, np.ndarray) and x.dtype == object:
+        return f"arr:O:{x.shape}:" + ";".join(canon(e) for e in x.ravel())
     if isinstance(x, np.ndarray):
         return f"arr:{x.dtype.str}:{x.shape}:{x.tobytes().hex()}"
     if isinstance(x, np.generic):
